@@ -40,15 +40,8 @@ theorem drain_invariants_hold_when_reachable (s : Streams) (h1 : H2V.Lemmas.Conn
     (h2 : H2V.Lemmas.ConnCountsP.Reach s) (hp : s.panicked = none) : PInv s :=
   ⟨h1.safe, h1.reqOk, h2.qok hp _ (by decide), h2.qok hp _ (by decide)⟩
 
-/-- a state with one request queued: `send_request` on a fresh client -/
-def exReq : Streams := ((Conn.init {}).streams.sendRequest false [] true none).1
-
-theorem exReq_pinv : PInv exReq :=
-  drain_invariants_hold_when_reachable _
-    (.sendRequest _ _ _ _ (.init ⟨rfl, rfl⟩))
-    (.step (.init (.client {} (by decide))) (.sendRequest _ _ _ _ _)) (by decide)
-
-example : exReq.prio.pendingOpen = [0] ∧ RangeOK exReq := ⟨by decide, by unfold RangeOK; decide⟩
+/-- non-vacuity: `exReq` (ConnDrainPFindings.lean) = `send_request` on a fresh client; it satisfies `PInv` (`exReq_pinv`) -/
+example : PInv exReq ∧ exReq.prio.pendingOpen = [0] ∧ RangeOK exReq := ⟨exReq_pinv, by decide, by unfold RangeOK; decide⟩
 
 /-- **The model's fuel for `pop_frame` suffices** (no fuel hypothesis is needed below).  In a state satisfying
     `PInv`, `Prioritize::pop_frame` — run with the fuel `popFrameFuel s` that `buffer_pending` hands it —
@@ -71,6 +64,9 @@ theorem buffer_pending_complete_means_nothing_to_send (n : Nat) (s s' : Streams)
     (hr : Streams.prioBufferPendingLoop n s w = (s', w', .complete)) (hp : s'.panicked = none) :
     s'.prio.pendingSend = [] ∧ PInv s' :=
   prioLoop_complete n s w s' w' h hr hp
+
+/-- non-vacuity: on `exReq` the loop writes the HEADERS frame and answers "complete" -/
+example : (Streams.prioBufferPendingLoop 5 exReq (Conn.init {}).codec.w).2.2 = .complete := by decide
 
 /-- **The connection's poll drains everything that can be written.**  `Streams::poll_complete` answers `Ready`
     only in a state in which
